@@ -313,7 +313,12 @@ def step (d : DState) (args : List String) : DState × String :=
       match int? now with
       | some now =>
         let r := runOp d s (.data .reject now .err)
-        (r.1, r.2 ++ absOther hx (fun pd => match pd with | .reject => true | _ => false))
+        -- A datagram the REAL parser rejected is run as `.reject` whatever the parser model says: a real parser that
+        -- is stricter than the model on a datagram (RFC-invalid ones, e.g. a broken extension after all looked-up
+        -- extensions) preserves the property - the state is untouched, which is what `.reject` is.  Exact
+        -- accept / reject agreement of parser and parser model is engine wire's comparison, not this one's; only a
+        -- PANIC of the parser model is marked here.
+        (r.1, r.2 ++ absOther hx (fun _ => true))
       | none => (d, "bad-op")
     | ["tsi", now, hx] =>
       match int? now with
